@@ -60,8 +60,8 @@ BindOutcome(in, m) ==
 
 Call(in, m, a) ==
   CASE a = "RouteInfo" ->
-         IF m.route THEN Res(m, <<Pattern(in.op), in.id>>, TRUE, FALSE)
-         ELSE Res([m EXCEPT !.route = TRUE, !.lookups = @ + 1], <<Pattern(in.op), in.id>>, FALSE, FALSE)
+         IF m.route THEN Res(m, <<Pattern(in.op), IdOf(in)>>, TRUE, FALSE)
+         ELSE Res([m EXCEPT !.route = TRUE, !.lookups = @ + 1], <<Pattern(in.op), IdOf(in)>>, FALSE, FALSE)
     [] a = "ContentType" ->
          IF m.ct # << >> THEN Res(m, m.ct, TRUE, FALSE)
          ELSE IF ~CtypeParses(in) THEN Res(m, <<"err">>, FALSE, TRUE)
@@ -82,7 +82,7 @@ Call(in, m, a) ==
     [] a = "BindAndValidate" ->
          IF m.bound # << >> /\ MemoBound THEN Res(m, m.bound, TRUE, FALSE)
          ELSE LET o == BindOutcome(in, m)
-                  ret == IF o.valid THEN <<"valid", in.id, IF HasBody(in.op) THEN in.body ELSE NoneStr>> ELSE <<"invalid">>
+                  ret == IF o.valid THEN <<"valid", IdOf(in), IF HasBody(in.op) THEN in.body ELSE NoneStr>> ELSE <<"invalid">>
               IN Res([m EXCEPT !.bound = ret, !.consumes = @ + (IF o.consumed THEN 1 ELSE 0)], ret, FALSE, FALSE)
     [] a = "ResetAuth" ->
          Res([m EXCEPT !.pr = << >>, !.sc = << >>], <<"reset">>, FALSE, FALSE)
@@ -100,7 +100,7 @@ ReusedNotRecomputed(in, m, a) ==
   LET r == Call(in, m, a) IN
   MemoHit(m, a) => /\ r.same                                   \* the same request value comes back
                    /\ r.m = m                                  \* nothing recomputed, no counter moves
-                   /\ r.ret = (CASE a = "RouteInfo" -> <<Pattern(in.op), in.id>>
+                   /\ r.ret = (CASE a = "RouteInfo" -> <<Pattern(in.op), IdOf(in)>>
                                  [] a = "ContentType" -> m.ct
                                  [] a \in {"ResponseFormat", "ResponseFormatText"} -> m.fmt
                                  [] a = "Authorize" -> m.pr \o m.sc
